@@ -1,159 +1,1286 @@
+// C19 correspondence harness: pkg/provisioning/bootguard (CreateIBBSegments, GetIBBsDigest,
+// CreateIBBDigest, IBBsMatchBPMDigest, StitchFITEntries) and pkg/tools.CalcImageOffset against
+// Model/IBB.v, on synthetic flash images (bare BIOS region, Intel flash descriptor + BIOS
+// region, FMAP + CBFS) and on variants of testdata/firmware/fake_intel_firmware.fd with the
+// FIT rewritten.
+//
+// The oracle is written from the property text, not from the model: it knows the FIT it wrote
+// and where it put each region, maps a physical address to `region_end - (4GiB - addr)`,
+// slices the image, hashes with Go crypto (gmsm for SM3) and compares files byte by byte.
 package main
 
 import (
+	"bytes"
+	"crypto/sha1"
+	"crypto/sha256"
+	"crypto/sha512"
+	"encoding/binary"
 	"fmt"
+	"math/rand"
 	"os"
+	"path/filepath"
+	"strings"
 
 	"github.com/9elements/converged-security-suite/v2/pkg/provisioning/bootguard"
 	"github.com/9elements/converged-security-suite/v2/pkg/tools"
-	"github.com/linuxboot/fiano/pkg/cbfs"
 	"github.com/linuxboot/fiano/pkg/intel/metadata/bg"
 	"github.com/linuxboot/fiano/pkg/intel/metadata/bg/bgbootpolicy"
 	"github.com/linuxboot/fiano/pkg/intel/metadata/cbnt"
 	"github.com/linuxboot/fiano/pkg/intel/metadata/cbnt/cbntbootpolicy"
 	"github.com/linuxboot/fiano/pkg/intel/metadata/common/bgheader"
-	"github.com/linuxboot/fiano/pkg/intel/metadata/fit"
+	"github.com/sirupsen/logrus"
+	"github.com/tjfoc/gmsm/sm3"
 	"verifharness/gal"
 )
 
-func newBG(ver int, algs ...uint16) *bootguard.BootGuard {
+const header = "From CSS Require Import Lib.Base Lib.Cases Model.IBB Model.IBBCases."
+
+const (
+	siteSeg    = "pkg/provisioning/bootguard/bootguard.go:CreateIBBSegments"
+	siteDigest = "pkg/provisioning/bootguard/bootguard.go:GetIBBsDigest"
+	siteCreate = "pkg/provisioning/bootguard/bootguard.go:CreateIBBDigest"
+	siteMatch  = "pkg/provisioning/bootguard/bootguard.go:IBBsMatchBPMDigest"
+	siteStitch = "pkg/provisioning/bootguard/tools.go:StitchFITEntries"
+	siteOffset = "pkg/tools/ifd.go:CalcImageOffset"
+
+	kD9    = "C19-D9-bios-only-offset"
+	kCount = "C19-ibbcount-uint8-wrap"
+	kSM3   = "C19-sm3-name-roundtrip"
+)
+
+var (
+	ctx    *gal.Ctx
+	rng    *rand.Rand
+	tmpDir string
+	tmpSeq int
+)
+
+// ------------------------------------------------------------------ images
+
+type image struct {
+	Name      string
+	Bytes     []byte
+	Lay       layout
+	RegionEnd int // image offset that maps to 4 GiB according to the property text
+	RegionBeg int // start of the BIOS region / COREBOOT area / image
+	Fit       []fitEnt
+	FitOK     bool
+	IsCbfs    bool
+	CbfsOff   uint32
+	Cbfs      []cbfsFile
+	enc       string
+}
+
+func (im *image) lit() string {
+	if im.enc == "" {
+		im.enc = encodeImage(im.Bytes)
+	}
+	return im.enc
+}
+
+func (im *image) phys(off int) uint64 { return basePhys - uint64(im.RegionEnd) + uint64(off) }
+
+// the address map of the property text
+func (im *image) specOff(addr uint64) (int, bool) {
+	if addr >= basePhys || basePhys-addr > uint64(im.RegionEnd) {
+		return 0, false
+	}
+	return im.RegionEnd - int(basePhys-addr), true
+}
+
+func (im *image) inImage(addr uint64, size uint64) (int, bool) {
+	o, ok := im.specOff(addr)
+	if !ok || uint64(o)+size > uint64(len(im.Bytes)) {
+		return 0, false
+	}
+	return o, true
+}
+
+func tmpPath() string {
+	tmpSeq++
+	return filepath.Join(tmpDir, fmt.Sprintf("img%06d.bin", tmpSeq))
+}
+
+func writeTmp(b []byte) string {
+	p := tmpPath()
+	if err := os.WriteFile(p, b, 0o600); err != nil {
+		panic(err)
+	}
+	return p
+}
+
+func pick[T any](xs ...T) T { return xs[rng.Intn(len(xs))] }
+
+// random FIT body: startup-module entries (count 0..4, sometimes more) at any position,
+// mixed with other record types; manifests/ACM placed in disjoint slots of [lo, hi)
+type fitPlan struct {
+	nStartup int
+	withKM   int // number of KM entries
+	withBPM  int
+	withACM  int
+	others   int
+	weird    bool // addresses/sizes outside the image, >4GiB, huge sizes
+}
+
+type slotAlloc struct {
+	lo, hi int
+}
+
+// carve returns a 16-aligned slot of `size` bytes, moving the low water mark
+func (s *slotAlloc) carve(size int) (int, bool) {
+	gap := 16 * rng.Intn(8)
+	o := (s.lo + gap + 15) &^ 15
+	if o+size > s.hi {
+		return 0, false
+	}
+	s.lo = o + size
+	return o, true
+}
+
+// buildFit places the data of the entries into img and returns the entry list (header first)
+func buildFit(im *image, pl fitPlan, lo, hi int) []fitEnt {
+	al := &slotAlloc{lo, hi}
+	var body []fitEnt
+	add := func(e fitEnt) { body = append(body, e) }
+	for i := 0; i < pl.nStartup; i++ {
+		sz16 := 1 + rng.Intn(0x30)
+		if rng.Intn(6) == 0 {
+			sz16 = 0
+		}
+		off, ok := al.carve(sz16 * 16)
+		if !ok {
+			off, sz16 = lo, 1
+		}
+		e := fitEnt{tStartup, im.phys(off), uint32(sz16)}
+		if pl.weird {
+			switch rng.Intn(6) {
+			case 0:
+				e.Addr = im.phys(0) - uint64(16*(1+rng.Intn(64))) // below the image
+			case 1:
+				e.Addr = im.phys(len(im.Bytes)-16*(1+rng.Intn(4))) // straddles the end
+				e.Size = uint32(8 + rng.Intn(8))
+			case 2:
+				e.Addr |= uint64(1+rng.Intn(3)) << 32 // truncated by uint32()
+			case 3:
+				e.Size = uint32(rng.Intn(1 << 24)) // size<<4 up to 2^28
+			case 4:
+				e.Size = 0xFFFFFF
+			}
+		}
+		add(e)
+	}
+	for i := 0; i < pl.withKM; i++ {
+		sz := 0x40 + rng.Intn(0x100)
+		off, ok := al.carve(sz)
+		if ok {
+			add(fitEnt{tKM, im.phys(off), uint32(sz)})
+		}
+	}
+	for i := 0; i < pl.withBPM; i++ {
+		sz := 0x40 + rng.Intn(0x100)
+		off, ok := al.carve(sz)
+		if ok {
+			add(fitEnt{tBPM, im.phys(off), uint32(sz)})
+		}
+	}
+	for i := 0; i < pl.withACM; i++ {
+		sz := 4 * (0x10 + rng.Intn(0x60))
+		off, ok := al.carve(sz)
+		if ok {
+			copy(im.Bytes[off:], acmBlob(sz, uint32(sz/4), byte(rng.Intn(256))))
+			add(fitEnt{tSACM, im.phys(off), 0})
+		}
+	}
+	for i := 0; i < pl.others; i++ {
+		t := pick[byte](tMicrocode, tTPMPolicy, tSkip, 0x09, 0x0A, 0x2D, 0x10, 0x33)
+		off, ok := al.carve(0x40)
+		if !ok {
+			off = lo
+		}
+		add(fitEnt{t, im.phys(off), uint32(rng.Intn(8))})
+	}
+	rng.Shuffle(len(body), func(i, j int) { body[i], body[j] = body[j], body[i] })
+	return append([]fitEnt{fitHeaderEnt(len(body) + 1)}, body...)
+}
+
+func randomPlan() fitPlan {
+	pl := fitPlan{nStartup: rng.Intn(5), others: rng.Intn(4)}
+	if rng.Intn(10) == 0 {
+		pl.nStartup = 5 + rng.Intn(12)
+	}
+	pl.withKM = pick(0, 1, 1, 1, 2)
+	pl.withBPM = pick(0, 1, 1, 1, 2)
+	pl.withACM = pick(0, 1, 1)
+	pl.weird = rng.Intn(5) == 0
+	return pl
+}
+
+func genBiosOnly(pl fitPlan) *image {
+	n := pick(0x2000, 0x4000, 0x8000)
+	im := &image{Name: "bios-only", Bytes: newPatImage(n), Lay: layout{Kind: "bios"}, RegionEnd: n, FitOK: true}
+	tbl := n - 0x800
+	im.Fit = buildFit(im, pl, 0, tbl)
+	putFIT(im.Bytes, tbl, im.Fit)
+	return im
+}
+
+func genIFD(pl fitPlan) *image {
+	nblk := pick(4, 8, 16)
+	n := nblk * 0x1000
+	base := 1 + rng.Intn(nblk-2)
+	im := &image{Name: "ifd", Bytes: newPatImage(n), RegionEnd: n, RegionBeg: base * 0x1000, FitOK: true}
+	putIFD(im.Bytes, uint16(base), uint16(nblk-1))
+	im.Lay = layout{Kind: "ifd", Off: uint32(base * 0x1000), Size: uint32(n - base*0x1000)}
+	tbl := n - 0x800
+	im.Fit = buildFit(im, pl, base*0x1000, tbl)
+	putFIT(im.Bytes, tbl, im.Fit)
+	return im
+}
+
+// coreboot: FMAP with a COREBOOT area that ends at the end of the image; the CBFS ends with
+// the bootblock, which holds the FIT and the FIT pointer.
+func genCoreboot(pl fitPlan) *image {
+	nblk := pick(4, 8, 16)
+	n := nblk * 0x1000
+	cbOff := pick(0x1000, 0x2000)
+	im := &image{Name: "coreboot", Bytes: newPatImage(n), RegionEnd: n, RegionBeg: cbOff, FitOK: true, IsCbfs: true, CbfsOff: uint32(cbOff)}
+	areas := []fmapArea{{"FMAP", 0x100, 0x200}, {"RW_MISC", 0x400, 0x400}, {"COREBOOT", uint32(cbOff), uint32(n - cbOff)}}
+	if rng.Intn(2) == 0 {
+		areas[0], areas[1] = areas[1], areas[0]
+	}
+	putFMAP(im.Bytes, 0x100, areas)
+	im.Lay = layout{Kind: "coreboot", Off: uint32(cbOff), Size: uint32(n - cbOff)}
+	// files: random mix; the bootblock last, reaching the end of the area
+	names := []string{"fallback/romstage", "fspt.bin", "fallback/verstage", "config", "fallback/ramstage", "cpu_microcode_blob.bin", "fspt.bin.bak", "bootblock2", "FSPT.BIN"}
+	rec := uint32(0)
+	bbData := uint32(0x900 + 16*rng.Intn(8))
+	bbRec := uint32(n-cbOff) - bbData - 48
+	k := rng.Intn(6)
+	for i := 0; i < k; i++ {
+		name := names[rng.Intn(len(names))]
+		nameField := uint32((len(name) + 1 + 15) &^ 15)
+		size := uint32(16 * (1 + rng.Intn(24)))
+		if rec+24+nameField+size+64 > bbRec {
+			break
+		}
+		typ := pick[uint32](0x50, 0x11, 0x60, 0x50)
+		if typ == 0x11 || typ == 0x60 {
+			typ = 0x50 // stage / fsp readers parse sub-headers; the suite only looks at names
+		}
+		im.Cbfs = append(im.Cbfs, putCBFSFile(im.Bytes, uint32(cbOff), rec, name, typ, size, nameField))
+		rec = (rec + 24 + nameField + size + 15) &^ 15
+		rec += 16 * uint32(rng.Intn(3))
+	}
+	if rng.Intn(8) != 0 { // sometimes no bootblock file by that name
+		im.Cbfs = append(im.Cbfs, putCBFSFile(im.Bytes, uint32(cbOff), bbRec, "bootblock", 0x01, bbData, 24))
+	} else {
+		im.Cbfs = append(im.Cbfs, putCBFSFile(im.Bytes, uint32(cbOff), bbRec, "bootblock.alt", 0x01, bbData, 24))
+	}
+	tbl := n - 0x800
+	lo := cbOff + int(rec) + 0x40
+	if lo > tbl-0x100 {
+		lo = tbl - 0x100
+	}
+	im.Fit = buildFit(im, pl, lo, int(uint32(cbOff)+bbRec)-0x10)
+	putFIT(im.Bytes, tbl, im.Fit)
+	return im
+}
+
+var fakeImage []byte
+
+// variant of the bundled fake image: same contents, FIT rewritten
+func genFake(pl fitPlan, embed bool) *image {
+	b := append([]byte(nil), fakeImage...)
+	n := len(b)
+	im := &image{Name: "fake", RegionEnd: n, FitOK: true, Lay: layout{Kind: "bios"}}
+	shift := 0
+	if embed {
+		// full flash: descriptor + filler + the 64 KiB BIOS region at the end
+		pre := pick(0x1000, 0x3000, 0x10000)
+		full := newPatImage(pre + n)
+		copy(full[pre:], b)
+		b = full
+		putIFD(b, uint16(pre/0x1000), uint16((pre+n)/0x1000-1))
+		im.Name = "fake-in-ifd"
+		im.Lay = layout{Kind: "ifd", Off: uint32(pre), Size: uint32(n)}
+		im.RegionBeg = pre
+		im.RegionEnd = pre + n
+		shift = pre
+	}
+	im.Bytes = b
+	// existing residents of the fake image: SACM 0x5000 (2 KiB), KM 0x5400 (0x255), BPM 0x5800 (0x2f1),
+	// startup module 0x8000 (4 KiB); free padding for additional data: 0x9000.. ; FIT at 0xec00
+	body := []fitEnt{
+		{tSACM, im.phys(shift + 0x5000), 0},
+		{tKM, im.phys(shift + 0x5400), 0x255},
+		{tBPM, im.phys(shift + 0x5800), 0x2f1},
+	}
+	for i := 0; i < pl.nStartup; i++ {
+		off := shift + pick(0x8000, 0x8400, 0x9000, 0xa000, 0x0, 0x1000, 0x6000) + 16*rng.Intn(16)
+		body = append(body, fitEnt{tStartup, im.phys(off), uint32(1 + rng.Intn(0x40))})
+	}
+	for i := 0; i < pl.others; i++ {
+		body = append(body, fitEnt{pick[byte](tMicrocode, tSkip, 0x0A), im.phys(shift + 0xb000), 0})
+	}
+	rng.Shuffle(len(body), func(i, j int) { body[i], body[j] = body[j], body[i] })
+	im.Fit = append([]fitEnt{fitHeaderEnt(len(body) + 1)}, body...)
+	putFIT(im.Bytes, shift+0xec00, im.Fit)
+	return im
+}
+
+func genAny() *image {
+	pl := randomPlan()
+	switch rng.Intn(10) {
+	case 0, 1, 2:
+		return genBiosOnly(pl)
+	case 3, 4, 5:
+		return genIFD(pl)
+	case 6, 7:
+		return genCoreboot(pl)
+	case 8:
+		return genFake(pl, false)
+	default:
+		return genFake(pl, true)
+	}
+}
+
+// images on which fit.GetTable fails
+func genBrokenFit() *image {
+	im := genBiosOnly(fitPlan{nStartup: 2, withKM: 1, withBPM: 1})
+	n := len(im.Bytes)
+	switch rng.Intn(4) {
+	case 0: // pointer outside the image
+		binary.LittleEndian.PutUint64(im.Bytes[n-0x40:], im.phys(0)-0x1000)
+	case 1: // magic destroyed
+		im.Bytes[n-0x800] ^= 0xff
+	case 2: // table runs past the end
+		im.Bytes[n-0x800+8] = 0xff
+		im.Bytes[n-0x800+9] = 0xff
+	case 3: // pointer 0
+		binary.LittleEndian.PutUint64(im.Bytes[n-0x40:], 0)
+	}
+	im.FitOK = false
+	im.Name = "broken-fit"
+	return im
+}
+
+// ------------------------------------------------------------------ manifests
+
+type seg struct {
+	Base  uint32 `json:"base"`
+	Size  uint32 `json:"size"`
+	Flags uint16 `json:"flags"`
+}
+
+func segLit(s []seg) string {
+	o := make([]string, len(s))
+	for i, x := range s {
+		o[i] = fmt.Sprintf("(mkSeg %d %d %d)", x.Base, x.Size, x.Flags)
+	}
+	return gal.List(o)
+}
+
+func newBG(ver int, nSE int, algs ...uint16) *bootguard.BootGuard {
 	b := &bootguard.BootGuard{}
 	if ver == 1 {
 		b.Version = bgheader.Version10
 		b.VData.BGbpm = bgbootpolicy.NewManifest()
-		b.VData.BGbpm.SE = make([]bgbootpolicy.SE, 1)
-		if len(algs) > 0 {
+		b.VData.BGbpm.SE = make([]bgbootpolicy.SE, nSE)
+		if len(algs) > 0 && nSE > 0 {
 			b.VData.BGbpm.SE[0].Digest.HashAlg = bg.Algorithm(algs[0])
 		}
 	} else {
 		b.Version = bgheader.Version20
 		b.VData.CBNTbpm = cbntbootpolicy.NewManifest()
-		b.VData.CBNTbpm.SE = make([]cbntbootpolicy.SE, 1)
+		b.VData.CBNTbpm.SE = make([]cbntbootpolicy.SE, nSE)
 		for _, a := range algs {
 			b.VData.CBNTbpm.SE[0].DigestList.List = append(b.VData.CBNTbpm.SE[0].DigestList.List, cbnt.HashStructure{HashAlg: cbnt.Algorithm(a)})
 		}
+		b.VData.CBNTbpm.SE[0].DigestList.Size = uint16(len(algs))
 	}
 	return b
 }
 
-func tmpFile(b []byte) string {
-	f, err := os.CreateTemp("", "c19-*.bin")
+func setSegs(b *bootguard.BootGuard, ver int, s []seg) {
+	if ver == 1 {
+		x := make([]bgbootpolicy.IBBSegment, len(s))
+		for i, g := range s {
+			x[i].Base, x[i].Size, x[i].Flags = g.Base, g.Size, g.Flags
+		}
+		b.VData.BGbpm.SE[0].IBBSegments = x
+	} else {
+		x := make([]cbntbootpolicy.IBBSegment, len(s))
+		for i, g := range s {
+			x[i].Base, x[i].Size, x[i].Flags = g.Base, g.Size, g.Flags
+		}
+		b.VData.CBNTbpm.SE[0].IBBSegments = x
+	}
+}
+
+func getSegs(b *bootguard.BootGuard, ver int, se int) []seg {
+	var out []seg
+	if ver == 1 {
+		for _, g := range b.VData.BGbpm.SE[se].IBBSegments {
+			out = append(out, seg{g.Base, g.Size, g.Flags})
+		}
+	} else {
+		for _, g := range b.VData.CBNTbpm.SE[se].IBBSegments {
+			out = append(out, seg{g.Base, g.Size, g.Flags})
+		}
+	}
+	return out
+}
+
+func getDigests(b *bootguard.BootGuard, ver int) [][]byte {
+	if ver == 1 {
+		return [][]byte{b.VData.BGbpm.SE[0].Digest.HashBuffer}
+	}
+	var o [][]byte
+	for _, h := range b.VData.CBNTbpm.SE[0].DigestList.List {
+		o = append(o, h.HashBuffer)
+	}
+	return o
+}
+
+// algorithm names of the CLI and the TPM_ALG ids they denote
+var algNames = []struct {
+	name string
+	id   int64
+}{{"SHA1", 4}, {"SHA256", 11}, {"SHA384", 12}, {"SM3", 18}, {"SHA512", 13}, {"RSA", 1}, {"sha256", 11}, {"Sm3", 18}, {"AlgNull", 16}, {"SM3_256", -1}, {"", -1}, {"MD5", -1}}
+
+func goHash(id int64, msg []byte) []byte {
+	switch id {
+	case 4:
+		h := sha1.Sum(msg)
+		return h[:]
+	case 11:
+		h := sha256.Sum256(msg)
+		return h[:]
+	case 12:
+		h := sha512.Sum384(msg)
+		return h[:]
+	case 13:
+		h := sha512.Sum512(msg)
+		return h[:]
+	case 18:
+		return sm3.Sm3Sum(msg)
+	}
+	return nil
+}
+
+// algorithms the tool offers for the IBB digest per manifest generation (bg-prov help, GetAlgFromString)
+func offered(ver int, id int64) bool {
+	if ver == 1 {
+		return id == 4 || id == 11
+	}
+	return id == 4 || id == 11 || id == 12 || id == 18
+}
+
+func fpLit(b []byte) string {
+	h := uint64(0)
+	for _, x := range b {
+		h = gal.DStep(h, uint64(x))
+	}
+	return gal.Pair(gal.Z(int64(len(b))), gal.U(h))
+}
+
+func obsLit(panicked bool, err error, ok string) string {
+	switch {
+	case panicked:
+		return "OPanic"
+	case err != nil:
+		return "OErr"
+	}
+	return "(OOk " + ok + ")"
+}
+
+// ------------------------------------------------------------------ oracle helpers
+
+// expected preimage by the property text: bytes of the non-excluded segments at the offsets
+// corresponding to their physical addresses; ok=false when some segment is not inside the image
+func specPreimage(im *image, segs []seg) ([]byte, bool) {
+	var p []byte
+	for _, s := range segs {
+		if s.Flags&1 != 0 {
+			continue
+		}
+		o, ok := im.inImage(uint64(s.Base), uint64(s.Size))
+		if !ok {
+			return nil, false
+		}
+		p = append(p, im.Bytes[o:o+int(s.Size)]...)
+	}
+	return p, true
+}
+
+// what the code would hash if it used offset(addr) = f(addr) and zero-filled short reads
+func readLike(img []byte, segs []seg, offOf func(uint64) (uint64, bool)) ([]byte, bool) {
+	var p []byte
+	for _, s := range segs {
+		if s.Flags&1 != 0 {
+			continue
+		}
+		o, ok := offOf(uint64(s.Base))
+		if !ok || o >= uint64(len(img)) {
+			return nil, false
+		}
+		buf := make([]byte, s.Size)
+		copy(buf, img[o:])
+		p = append(p, buf...)
+	}
+	return p, true
+}
+
+func d9Off(addr uint64) (uint64, bool) { return basePhys - addr, addr <= basePhys }
+
+func realOff(img []byte) func(uint64) (uint64, bool) {
+	return func(a uint64) (uint64, bool) {
+		o, err := tools.CalcImageOffset(img, a)
+		return o, err == nil && o < 1<<63
+	}
+}
+
+// is some non-excluded segment mapped differently by the tail-offset formula than by the property?
+func d9Bites(im *image, segs []seg) bool {
+	if im.Lay.Kind != "bios" {
+		return false
+	}
+	for _, s := range segs {
+		if s.Flags&1 != 0 {
+			continue
+		}
+		o, ok := im.specOff(uint64(s.Base))
+		if !ok || uint64(o) != basePhys-uint64(s.Base) {
+			return true
+		}
+	}
+	return false
+}
+
+type segInput struct {
+	Image  string `json:"image"`
+	Layout layout `json:"layout"`
+	Len    int    `json:"len"`
+	Ver    int    `json:"ver,omitempty"`
+	Alg    string `json:"alg,omitempty"`
+	Segs   []seg  `json:"segs,omitempty"`
+	Fit    []fitEnt `json:"fit,omitempty"`
+	Cbfs   []cbfsFile `json:"cbfs,omitempty"`
+	Flags  uint16 `json:"flags,omitempty"`
+	Extra  string `json:"extra,omitempty"`
+}
+
+// ------------------------------------------------------------------ case kinds
+
+func caseOffset(im *image) {
+	addrs := []uint64{im.phys(im.RegionBeg), im.phys(len(im.Bytes) - 1), im.phys(im.RegionBeg + rng.Intn(len(im.Bytes)-im.RegionBeg)),
+		basePhys - 1, basePhys - 16}
+	switch rng.Intn(4) {
+	case 0:
+		addrs = append(addrs, 0, basePhys, basePhys+uint64(rng.Intn(1<<20)), ^uint64(0), 1<<63, uint64(rng.Int63()))
+	case 1:
+		addrs = append(addrs, uint64(rng.Uint32()))
+	}
+	for _, a := range addrs {
+		var o uint64
+		var err error
+		p, _ := gal.Recover(func() { o, err = tools.CalcImageOffset(im.Bytes, a) })
+		in := segInput{Image: im.Name, Layout: im.Lay, Len: len(im.Bytes), Extra: fmt.Sprintf("addr=%#x", a)}
+		idx := ctx.Add("offset/"+im.Lay.Kind, fmt.Sprintf("COffset %s %s %s", im.Lay.lit(), gal.U(a), obsLit(p, err, gal.U(o))), in, true)
+		// oracle: addresses inside the mapped region translate to region_end - (4GiB - addr)
+		if want, ok := im.specOff(a); ok && want >= im.RegionBeg {
+			switch {
+			case p || err != nil:
+				ctx.OracleFail(idx, "CalcImageOffset fails on an address inside the image", siteOffset, in)
+			case o == uint64(want):
+				ctx.OracleOK()
+			case im.Lay.Kind == "bios" && o == basePhys-a:
+				ctx.OracleFailKnown(idx, kD9, fmt.Sprintf("CalcImageOffset(BIOS-region-only image of %#x bytes, %#x) = %#x (the tail offset), want %#x", len(im.Bytes), a, o, want), siteOffset, in)
+			default:
+				ctx.OracleFail(idx, fmt.Sprintf("CalcImageOffset(%s, %#x) = %#x, want %#x", im.Lay.Kind, a, o, want), siteOffset, in)
+			}
+		}
+	}
+}
+
+func wantSegsFit(es []fitEnt, flags uint16) []seg {
+	var w []seg
+	for _, e := range es {
+		if e.Type == tStartup {
+			w = append(w, seg{uint32(e.Addr), e.Size << 4, flags})
+		}
+	}
+	return w
+}
+
+func segsEqual(a, b []seg) bool {
+	if len(a) != len(b) {
+		return false
+	}
+	for i := range a {
+		if a[i] != b[i] {
+			return false
+		}
+	}
+	return true
+}
+
+func caseSegments(im *image) (ver int, got []seg, ok bool) {
+	ver = 1 + rng.Intn(2)
+	flags := pick[uint16](0, 0, 1, 2, uint16(rng.Intn(1<<16)))
+	nSE, seIdx := 1, 0
+	if rng.Intn(25) == 0 {
+		nSE, seIdx = pick(1, 2), pick(1, 2, 3)
+	}
+	b := newBG(ver, nSE)
+	p := writeTmp(im.Bytes)
+	var err error
+	pan, msg := gal.Recover(func() { err = b.CreateIBBSegments(uint8(seIdx), flags, p) })
+	if !pan && err == nil && seIdx < nSE {
+		got = getSegs(b, ver, seIdx)
+	}
+	in := segInput{Image: im.Name, Layout: im.Lay, Len: len(im.Bytes), Ver: ver, Flags: flags, Fit: im.Fit, Cbfs: im.Cbfs, Extra: fmt.Sprintf("se=%d/%d panic=%q err=%v", seIdx, nSE, msg, err)}
+	if len(in.Fit) > 24 {
+		in.Fit = in.Fit[:24]
+		in.Extra += fmt.Sprintf(" (fit truncated, %d entries)", len(im.Fit))
+	}
+	var idx int
+	var want []seg
+	if im.IsCbfs {
+		idx = ctx.Add("segments/cbfs", fmt.Sprintf("CSegCbfs %d %d %d %d %d %s %s", nSE, seIdx, flags, len(im.Bytes), im.CbfsOff, cbfsLit(im.Cbfs),
+			obsLit(pan, err, segLit(got))), in, true)
+		for _, f := range im.Cbfs {
+			if f.Name == "fspt.bin" || f.Name == "fallback/verstage" || f.Name == "bootblock" {
+				// data of the file starts at area offset + record start + sub-header offset
+				off := int(im.CbfsOff + f.RecStart + f.SubOffset)
+				want = append(want, seg{uint32(im.phys(off)), f.Size, flags})
+			}
+		}
+	} else {
+		idx = ctx.Add("segments/"+im.Name, fmt.Sprintf("CSegFit %d %d %d %s %s", nSE, seIdx, flags, fitOptLit(im.Fit, im.FitOK),
+			obsLit(pan, err, segLit(got))), in, true)
+		want = wantSegsFit(im.Fit, flags)
+	}
+	ctx.Count(fmt.Sprintf("segments/count=%d", min(len(want), 6)))
+	switch {
+	case seIdx >= nSE:
+		ctx.OracleOK() // caller error, nothing promised
+	case !im.FitOK && !im.IsCbfs:
+		if pan {
+			ctx.OracleFail(idx, "CreateIBBSegments panics on an image without a valid FIT: "+msg, siteSeg, in)
+		} else {
+			ctx.OracleOK()
+		}
+	case pan && len(want) >= 256:
+		ctx.OracleFailKnown(idx, kCount, fmt.Sprintf("CreateIBBSegments panics on %d startup-module entries: %s", len(want), msg), siteSeg, in)
+	case pan:
+		ctx.OracleFail(idx, "CreateIBBSegments panics: "+msg, siteSeg, in)
+	case err != nil:
+		ctx.OracleFail(idx, "CreateIBBSegments fails on a valid image: "+err.Error(), siteSeg, in)
+	case !segsEqual(got, want):
+		ctx.OracleFail(idx, fmt.Sprintf("segment list differs from one segment per startup entry in FIT order: got %v want %v", got, want), siteSeg, in)
+	default:
+		ctx.OracleOK()
+		ok = true
+	}
+	return
+}
+
+// arbitrary segment lists: any order, exclusion flags, some outside the image
+func randomSegs(im *image, allowOutside bool) []seg {
+	n := rng.Intn(6)
+	var s []seg
+	for i := 0; i < n; i++ {
+		size := uint32(16 * rng.Intn(0x40))
+		if rng.Intn(4) == 0 {
+			size = uint32(rng.Intn(0x300)) // IBB segment sizes need not be multiples of 16
+		}
+		span := len(im.Bytes) - im.RegionBeg - int(size)
+		off := im.RegionBeg + rng.Intn(span)
+		g := seg{uint32(im.phys(off)), size, pick[uint16](0, 0, 0, 1, 2, 3, uint16(rng.Intn(1<<16)))}
+		if allowOutside && rng.Intn(12) == 0 {
+			switch rng.Intn(4) {
+			case 0:
+				g.Base = uint32(im.phys(len(im.Bytes) - int(size)/2 - 1)) // straddles the end
+			case 1:
+				g.Base = uint32(im.phys(0) - uint64(1+rng.Intn(0x2000))) // below the image
+			case 2:
+				g.Base = uint32(rng.Intn(1 << 20)) // low memory
+			case 3:
+				g.Base = uint32(im.phys(len(im.Bytes)-1)) + 1 // wraps to 0 for the last byte + 1
+			}
+		}
+		s = append(s, g)
+	}
+	// boundary segments
+	switch rng.Intn(8) {
+	case 0:
+		s = append(s, seg{uint32(im.phys(im.RegionBeg)), 32, 0}) // first byte of the region
+	case 1:
+		s = append(s, seg{uint32(im.phys(len(im.Bytes) - 32)), 32, 0}) // last bytes
+	case 2:
+		s = append(s, seg{uint32(im.phys(len(im.Bytes) / 2)), 0, 0}) // empty segment
+	}
+	if len(s) > 1 && rng.Intn(3) == 0 { // the same segment twice
+		s = append(s, s[0])
+	}
+	return s
+}
+
+type digestResult struct {
+	ok      bool   // the call returned a digest
+	digest  []byte
+	d9      bool // the digest is wrong and the tail-offset formula explains it
+}
+
+func caseDigest(im *image, ver int, segs []seg, algIdx int) digestResult {
+	an := algNames[algIdx]
+	b := newBG(ver, 1)
+	setSegs(b, ver, segs)
+	var d []byte
+	var err error
+	pan, msg := gal.Recover(func() { d, err = b.GetIBBsDigest(im.Bytes, an.name) })
+	in := segInput{Image: im.Name, Layout: im.Lay, Len: len(im.Bytes), Ver: ver, Alg: an.name, Segs: segs, Extra: fmt.Sprintf("panic=%q err=%v digest=%x", msg, err, d)}
+	// which bytes were hashed? (the code's own address map, zero-filled short reads)
+	obs := "(-1, 0)"
+	spec, specOK := specPreimage(im, segs)
+	if !pan && err == nil {
+		if p, ok := readLike(im.Bytes, segs, realOff(im.Bytes)); ok && bytes.Equal(goHash(an.id, p), d) {
+			obs = fpLit(p)
+		} else if specOK && bytes.Equal(goHash(an.id, spec), d) {
+			obs = fpLit(spec)
+		}
+	}
+	idx := ctx.Add(fmt.Sprintf("digest/v%d/%s/%s", ver, im.Lay.Kind, strings.ToUpper(an.name)),
+		fmt.Sprintf("CDigest %d %s %s %s %s %s", ver, gal.Z(an.id), im.Lay.lit(), im.lit(), segLit(segs), obsLit(pan, err, obs)), in, true)
+	res := digestResult{ok: !pan && err == nil, digest: d}
+	switch {
+	case pan:
+		ctx.OracleFail(idx, "GetIBBsDigest panics: "+msg, siteDigest, in)
+	case !offered(ver, an.id) || strings.ToUpper(an.name) != map[int64]string{4: "SHA1", 11: "SHA256", 12: "SHA384", 18: "SM3"}[an.id]:
+		if err == nil {
+			ctx.OracleFail(idx, fmt.Sprintf("GetIBBsDigest accepts algorithm name %q which generation %d does not offer", an.name, ver), siteDigest, in)
+		} else {
+			ctx.OracleOK()
+		}
+	case !specOK:
+		ctx.Count("digest/segment-outside-image(unspecified)")
+	case err == nil && bytes.Equal(d, goHash(an.id, spec)):
+		ctx.OracleOK()
+	default:
+		// wrong digest or an error although every segment lies inside the image
+		explained := false
+		if d9Bites(im, segs) {
+			p, ok := readLike(im.Bytes, segs, d9Off)
+			explained = (err == nil && ok && bytes.Equal(d, goHash(an.id, p))) || (err != nil && !ok)
+		}
+		what := fmt.Sprintf("GetIBBsDigest(%s image, %s) = %x err=%v, want %x = hash of the segments' bytes at region_end-(4GiB-base)", im.Lay.Kind, an.name, d, err, goHash(an.id, spec))
+		if explained {
+			res.d9 = true
+			ctx.OracleFailKnown(idx, kD9, what, siteDigest, in)
+		} else {
+			ctx.OracleFail(idx, what, siteDigest, in)
+		}
+	}
+	return res
+}
+
+// CreateIBBSegments -> CreateIBBDigest -> IBBsMatchBPMDigest, as bg-prov bpm-gen-v1/v2 does
+func casePipeline(im *image) {
+	ver := 1 + rng.Intn(2)
+	var algs []uint16
+	if ver == 1 {
+		algs = []uint16{pick[uint16](4, 11, 11)}
+	} else {
+		k := 1 + rng.Intn(3)
+		for i := 0; i < k; i++ {
+			algs = append(algs, pick[uint16](11, 12, 4, 18, 11, 12))
+		}
+		if rng.Intn(30) == 0 {
+			algs = append(algs, 13)
+		}
+	}
+	flags := pick[uint16](0, 0, 0, 2, 1)
+	b := newBG(ver, 1, algs...)
+	p := writeTmp(im.Bytes)
+	var err error
+	pan, _ := gal.Recover(func() { err = b.CreateIBBSegments(0, flags, p) })
+	if pan || err != nil {
+		return // covered by caseSegments
+	}
+	segs := getSegs(b, ver, 0)
+	for _, s := range segs {
+		if s.Size > 1<<20 {
+			return // GetIBBsDigest would allocate size bytes
+		}
+	}
+	pan, msg := gal.Recover(func() { err = b.CreateIBBDigest(p) })
+	ds := getDigests(b, ver)
+	in := segInput{Image: im.Name, Layout: im.Lay, Len: len(im.Bytes), Ver: ver, Alg: fmt.Sprint(algs), Segs: segs, Fit: im.Fit, Flags: flags, Extra: fmt.Sprintf("panic=%q err=%v", msg, err)}
+	spec, specOK := specPreimage(im, segs)
+	var obs []string
+	allFound := true
+	if !pan && err == nil {
+		like, likeOK := readLike(im.Bytes, segs, realOff(im.Bytes))
+		for i, a := range algs {
+			switch {
+			case likeOK && bytes.Equal(goHash(int64(a), like), ds[i]):
+				obs = append(obs, gal.Pair(gal.Z(int64(a)), fpLit(like)))
+			case specOK && bytes.Equal(goHash(int64(a), spec), ds[i]):
+				obs = append(obs, gal.Pair(gal.Z(int64(a)), fpLit(spec)))
+			default:
+				obs = append(obs, gal.Pair(gal.Z(int64(a)), "(-1, 0)"))
+				allFound = false
+			}
+		}
+	}
+	_ = allFound
+	al := make([]int64, len(algs))
+	hasSM3, hasOther := false, false
+	for i, a := range algs {
+		al[i] = int64(a)
+		if a == 18 {
+			hasSM3 = true
+		} else if !offered(ver, int64(a)) {
+			hasOther = true
+		}
+	}
+	idx := ctx.Add(fmt.Sprintf("create-digest/v%d/%s", ver, im.Lay.Kind),
+		fmt.Sprintf("CCreateDigest %d %s %s %s %s %s", ver, gal.ZList64(al), im.Lay.lit(), im.lit(), segLit(segs), obsLit(pan, err, gal.List(obs))), in, true)
+	digestsGood := false
+	d9 := false
+	switch {
+	case pan:
+		ctx.OracleFail(idx, "CreateIBBDigest panics: "+msg, siteCreate, in)
+	case hasOther:
+		ctx.Count("create-digest/not-offered-alg")
+	case !specOK:
+		ctx.Count("create-digest/segment-outside-image(unspecified)")
+	case err != nil && hasSM3 && strings.Contains(err.Error(), "algorithm name provided unknown"):
+		ctx.OracleFailKnown(idx, kSM3, "CreateIBBDigest fails for the offered algorithm SM3: "+err.Error(), siteCreate, in)
+	default:
+		good := err == nil
+		if good {
+			for i, a := range algs {
+				if !bytes.Equal(ds[i], goHash(int64(a), spec)) {
+					good = false
+				}
+			}
+		}
+		if good {
+			ctx.OracleOK()
+			digestsGood = true
+			break
+		}
+		explained := false
+		if d9Bites(im, segs) {
+			pp, ok := readLike(im.Bytes, segs, d9Off)
+			explained = (err != nil && !ok) || (err == nil && ok && bytes.Equal(ds[0], goHash(int64(algs[0]), pp)))
+		}
+		what := fmt.Sprintf("CreateIBBDigest(%s image): err=%v digests=%x, want hash of the startup modules' bytes (%x)", im.Lay.Kind, err, ds, goHash(int64(algs[0]), spec))
+		if explained {
+			d9 = true
+			ctx.OracleFailKnown(idx, kD9, what, siteCreate, in)
+		} else {
+			ctx.OracleFail(idx, what, siteCreate, in)
+		}
+	}
+	if pan || err != nil {
+		return
+	}
+	caseMatch(im, ver, b, segs, digestsGood, d9, specOK)
+}
+
+// the independent validator on the manifest the suite generated
+func caseMatch(im *image, ver int, b *bootguard.BootGuard, segs []seg, digestsGood, d9, specOK bool) {
+	var ok bool
+	var err error
+	pan, msg := gal.Recover(func() { ok, err = b.IBBsMatchBPMDigest(im.Bytes) })
+	in := segInput{Image: im.Name, Layout: im.Lay, Len: len(im.Bytes), Ver: ver, Segs: segs, Extra: fmt.Sprintf("panic=%q err=%v ok=%v", msg, err, ok)}
+	// the function reports a mismatch as (false, err)
+	o := "OPanic"
+	if !pan {
+		o = "(OOk " + gal.Bool(ok) + ")"
+	}
+	idx := ctx.Add(fmt.Sprintf("match/v%d/%s", ver, im.Lay.Kind), fmt.Sprintf("CMatch %s %s %s %s", im.Lay.lit(), im.lit(), segLit(segs), o), in, true)
+	switch {
+	case !specOK:
+		ctx.Count("match/segment-outside-image(unspecified)")
+	case !pan && ok && digestsGood:
+		ctx.OracleOK()
+	case d9:
+		ctx.OracleFailKnown(idx, kD9, fmt.Sprintf("the independent IBB validation rejects the manifest generated for a BIOS-region-only image (ok=%v err=%v panic=%q)", ok, err, msg), siteMatch, in)
+	case !digestsGood:
+		ctx.Count("match/digest-already-reported")
+	default:
+		ctx.OracleFail(idx, fmt.Sprintf("the independent IBB validation rejects the generated manifest (ok=%v err=%v panic=%q)", ok, err, msg), siteMatch, in)
+	}
+}
+
+// GetIBBsDigest on an arbitrary segment list followed by the validator
+func caseDigestAndMatch(im *image) {
+	ver := 1 + rng.Intn(2)
+	segs := randomSegs(im, true)
+	ai := rng.Intn(len(algNames))
+	if rng.Intn(3) != 0 {
+		ai = rng.Intn(4) // mostly real algorithms
+	}
+	r := caseDigest(im, ver, segs, ai)
+	an := algNames[ai]
+	if !r.ok || rng.Intn(2) == 0 {
+		return
+	}
+	b := newBG(ver, 1, uint16(an.id))
+	setSegs(b, ver, segs)
+	if ver == 1 {
+		b.VData.BGbpm.SE[0].Digest.HashBuffer = r.digest
+	} else {
+		b.VData.CBNTbpm.SE[0].DigestList.List[0].HashBuffer = r.digest
+	}
+	spec, specOK := specPreimage(im, segs)
+	good := specOK && bytes.Equal(r.digest, goHash(an.id, spec))
+	caseMatch(im, ver, b, segs, good, r.d9, specOK)
+}
+
+// ------------------------------------------------------------------ stitching
+
+type stitchInput struct {
+	Image  string   `json:"image"`
+	Layout layout   `json:"layout"`
+	Len    int      `json:"len"`
+	Fit    []fitEnt `json:"fit"`
+	ACM    int      `json:"acm_len"`
+	BPM    int      `json:"bpm_len"`
+	KM     int      `json:"km_len"`
+	Extra  string   `json:"extra"`
+}
+
+func blob(n int, tag byte) []byte {
+	b := make([]byte, n)
+	for i := range b {
+		b[i] = tag ^ byte(i*13+i>>8)
+	}
+	return b
+}
+
+func diffRuns(before, after []byte) (lits []string, runs [][2]int) {
+	n := len(after)
+	for i := 0; i < n; {
+		if i < len(before) && after[i] == before[i] {
+			i++
+			continue
+		}
+		j := i
+		for j < n && (j >= len(before) || after[j] != before[j]) {
+			j++
+		}
+		lits = append(lits, gal.Pair(gal.Z(int64(i)), gal.Bytes(after[i:j])))
+		runs = append(runs, [2]int{i, j})
+		i = j
+	}
+	return
+}
+
+func caseStitch(im *image) {
+	// sizes of the new blobs relative to the first entry of each kind: below / at / above
+	var kmE, bpmE, acmE *fitEnt
+	for i := range im.Fit {
+		e := &im.Fit[i]
+		switch e.Type {
+		case tKM:
+			if kmE == nil {
+				kmE = e
+			}
+		case tBPM:
+			if bpmE == nil {
+				bpmE = e
+			}
+		case tSACM:
+			if acmE == nil {
+				acmE = e
+			}
+		}
+	}
+	newLen := func(e *fitEnt) int {
+		if e == nil || e.Size == 0 {
+			return pick(0, 0x20)
+		}
+		s := int(e.Size)
+		return pick(0, 1, s/2, s-1, s, s, s+1, s+0x40)
+	}
+	km := blob(newLen(kmE), 0x4b)
+	bpm := blob(newLen(bpmE), 0x42)
+	var acm []byte
+	if acmE != nil {
+		if o, ok := im.inImage(acmE.Addr, 32); ok {
+			old := int(binary.LittleEndian.Uint32(im.Bytes[o+24:])) * 4
+			n := pick(0, old, old, old, old-4, old+4)
+			if n > 0 {
+				sf := uint32(n / 4)
+				if rng.Intn(4) == 0 {
+					sf = uint32(rng.Intn(0x200)) // a new ACM whose own size field disagrees with its length
+				}
+				acm = acmBlob(n, sf, 0xac)
+			}
+		}
+	} else if rng.Intn(3) == 0 {
+		acm = acmBlob(0x80, 0x20, 0xac)
+	}
+	p := writeTmp(im.Bytes)
+	var err error
+	pan, msg := gal.Recover(func() { err = bootguard.StitchFITEntries(p, acm, bpm, km) })
+	after, rerr := os.ReadFile(p)
+	if rerr != nil {
+		panic(rerr)
+	}
+	in := stitchInput{Image: im.Name, Layout: im.Lay, Len: len(im.Bytes), Fit: im.Fit, ACM: len(acm), BPM: len(bpm), KM: len(km), Extra: fmt.Sprintf("panic=%q err=%v len_after=%d", msg, err, len(after))}
+	lits, runs := diffRuns(im.Bytes, after)
+	if pan {
+		idx := ctx.Add("stitch/panic", fmt.Sprintf("CStitch %s %s %s %s %s %s false (-1) []", im.Lay.lit(), im.lit(), fitOptLit(im.Fit, im.FitOK), gal.Bytes(acm), gal.Bytes(bpm), gal.Bytes(km)), in, true)
+		ctx.OracleFail(idx, "StitchFITEntries panics: "+msg, siteStitch, in)
+		return
+	}
+	idx := ctx.Add(fmt.Sprintf("stitch/%s/%s", im.Lay.Kind, map[bool]string{true: "ok", false: "err"}[err == nil]),
+		fmt.Sprintf("CStitch %s %s %s %s %s %s %s %d %s", im.Lay.lit(), im.lit(), fitOptLit(im.Fit, im.FitOK), gal.Bytes(acm), gal.Bytes(bpm), gal.Bytes(km),
+			gal.Bool(err == nil), len(after), gal.List(lits)), in, true)
+
+	// ---- oracle ----
+	type target struct {
+		e        fitEnt
+		new      []byte
+		off      int  // property-text offset of the entry's region
+		size     int  // size of the region
+		valid    bool // region inside the image
+		tooBig   bool
+	}
+	var ts []target
+	if im.FitOK {
+		for _, e := range im.Fit {
+			var nw []byte
+			switch e.Type {
+			case tKM:
+				nw = km
+			case tBPM:
+				nw = bpm
+			case tSACM:
+				nw = acm
+			}
+			if len(nw) == 0 {
+				continue
+			}
+			t := target{e: e, new: nw}
+			if e.Type == tSACM {
+				if o, ok := im.inImage(e.Addr, 32); ok {
+					t.off, t.size = o, int(binary.LittleEndian.Uint32(im.Bytes[o+24:]))*4
+					t.valid = t.size > 0 && o+t.size <= len(im.Bytes)
+					t.tooBig = len(nw) != t.size
+				}
+			} else {
+				if o, ok := im.inImage(e.Addr, uint64(e.Size)); ok && e.Size > 0 {
+					t.off, t.size, t.valid = o, int(e.Size), true
+					t.tooBig = len(nw) > t.size
+				}
+			}
+			ts = append(ts, t)
+		}
+	}
+	inRegions := func(i int) bool {
+		for _, t := range ts {
+			if t.valid && i >= t.off && i < t.off+t.size {
+				return true
+			}
+		}
+		return false
+	}
+	d9explains := func() bool { // every changed byte lies where the tail-offset formula would write
+		if im.Lay.Kind != "bios" {
+			return false
+		}
+		for _, r := range runs {
+			for i := r[0]; i < r[1]; i++ {
+				hit := false
+				for _, t := range ts {
+					o := int(basePhys - t.e.Addr)
+					if i >= o && i < o+len(t.new) {
+						hit = true
+					}
+				}
+				if !hit {
+					return false
+				}
+			}
+		}
+		return true
+	}
+	d9differs := false
+	for _, t := range ts {
+		if o, ok := im.specOff(t.e.Addr); im.Lay.Kind == "bios" && (!ok || uint64(o) != basePhys-t.e.Addr) {
+			d9differs = true
+		}
+	}
+	fail := func(what string, d9ok bool) {
+		if d9ok {
+			ctx.OracleFailKnown(idx, kD9, what, siteStitch, in)
+		} else {
+			ctx.OracleFail(idx, what, siteStitch, in)
+		}
+	}
+	// (a) frame: nothing outside the targeted entries' regions changes, the file keeps its length
+	if len(after) != len(im.Bytes) {
+		fail(fmt.Sprintf("StitchFITEntries changed the file length %d -> %d", len(im.Bytes), len(after)), d9explains())
+		return
+	}
+	for _, r := range runs {
+		for i := r[0]; i < r[1]; i++ {
+			if !inRegions(i) {
+				fail(fmt.Sprintf("StitchFITEntries changed byte %#x outside the targeted FIT entries' regions (err=%v)", i, err), d9explains())
+				return
+			}
+		}
+	}
+	// (b) size guards
+	anyBad := false
+	for _, t := range ts {
+		if !t.valid || t.tooBig {
+			anyBad = true
+		}
+	}
+	if !im.FitOK {
+		anyBad = true
+	}
+	if anyBad {
+		if err == nil {
+			fail("StitchFITEntries succeeds although a new blob does not fit its FIT entry (or the entry/FIT is invalid)", false)
+		} else {
+			ctx.OracleOK()
+		}
+		return
+	}
+	if err != nil {
+		fail("StitchFITEntries fails although every new blob fits its entry: "+err.Error(), d9differs)
+		return
+	}
+	// (c) re-reading the targeted entries returns the new contents; entries whose regions overlap
+	// (the bundled fake image: the 2 KiB ACM at 0x5000 covers the KM at 0x5400) cannot all hold theirs
+	for i, t := range ts {
+		for j, u := range ts {
+			if i != j && t.off < u.off+u.size && u.off < t.off+t.size {
+				ctx.Count("stitch/overlapping-entries(reread unspecified)")
+				ctx.OracleOK()
+				return
+			}
+		}
+	}
+	for _, t := range ts {
+		if !bytes.Equal(after[t.off:t.off+len(t.new)], t.new) {
+			fail(fmt.Sprintf("after StitchFITEntries the entry at %#x (type %#x) does not hold the new contents", t.e.Addr, t.e.Type), d9differs)
+			return
+		}
+	}
+	ctx.OracleOK()
+}
+
+// ------------------------------------------------------------------ fixed witnesses
+
+func probes() {
+	// D9: BIOS-region-only image, one startup module at offset 0x1000
+	n := 0x4000
+	im := &image{Name: "probe-d9", Bytes: newPatImage(n), Lay: layout{Kind: "bios"}, RegionEnd: n, FitOK: true}
+	im.Fit = []fitEnt{fitHeaderEnt(2), {tStartup, im.phys(0x1000), 0x10}}
+	putFIT(im.Bytes, n-0x800, im.Fit)
+	b := newBG(2, 1, 11)
+	setSegs(b, 2, []seg{{uint32(im.phys(0x1000)), 0x100, 0}})
+	d, err := b.GetIBBsDigest(im.Bytes, "SHA256")
+	want := sha256.Sum256(im.Bytes[0x1000:0x1100])
+	tail := sha256.Sum256(im.Bytes[0x3000:0x3100])
+	ctx.Probe(kD9, err == nil && !bytes.Equal(d, want[:]) && bytes.Equal(d, tail[:]),
+		"GetIBBsDigest on a 16 KiB BIOS-region-only image, segment base 0xffffd000 size 0x100: hashes image[0x3000:0x3100] (tail offset 4GiB-base) instead of image[0x1000:0x1100]; StitchFITEntries writes KM/BPM/ACM at the same wrong offset")
+	// uint8 counter
+	im2 := &image{Name: "probe-count", Bytes: newPatImage(n), Lay: layout{Kind: "bios"}, RegionEnd: n, FitOK: true}
+	im2.Fit = []fitEnt{fitHeaderEnt(257)}
+	for i := 0; i < 256; i++ {
+		im2.Fit = append(im2.Fit, fitEnt{tStartup, im2.phys(16 * i), 1})
+	}
+	putFIT(im2.Bytes, 0x2000, im2.Fit)
+	p := writeTmp(im2.Bytes)
+	b2 := newBG(2, 1)
+	pan, _ := gal.Recover(func() { err = b2.CreateIBBSegments(0, 0, p) })
+	ctx.Probe(kCount, pan, "CreateIBBSegments on a FIT with 256 BIOS-startup-module entries panics (uint8 counter wraps to 0, make([]ibbElement, 0), ibbElements[0])")
+	// SM3 name round trip
+	b3 := newBG(2, 1, 18)
+	p3 := writeTmp(im.Bytes)
+	_ = b3.CreateIBBSegments(0, 0, p3)
+	err = b3.CreateIBBDigest(p3)
+	_, derr := b3.GetIBBsDigest(im.Bytes, "SM3")
+	ctx.Probe(kSM3, err != nil && derr == nil, "CreateIBBDigest on a CBnT manifest whose digest list holds SM3 fails with 'algorithm name provided unknown' (Algorithm.String() gives SM3_256, GetAlgFromString wants SM3) while GetIBBsDigest(image, \"SM3\") works")
+}
+
+// ------------------------------------------------------------------ main
+
+func main() {
+	ctx = gal.New("C19", header, 0)
+	rng = ctx.Rng
+	logrus.SetOutput(os.Stderr)
+	logrus.SetLevel(logrus.ErrorLevel)
+	repo := os.Getenv("VERIF_REPO")
+	if repo == "" {
+		repo = "/repo"
+	}
+	var err error
+	fakeImage, err = os.ReadFile(filepath.Join(repo, "testdata/firmware/fake_intel_firmware.fd"))
 	if err != nil {
 		panic(err)
 	}
-	f.Write(b)
-	f.Close()
-	return f.Name()
-}
+	tmpDir, err = os.MkdirTemp("", "c19-")
+	if err != nil {
+		panic(err)
+	}
+	defer os.RemoveAll(tmpDir)
+	// fiano prints region warnings with fmt.Printf: keep stdout for our summary only
+	stdout := os.Stdout
+	devnull, _ := os.OpenFile(os.DevNull, os.O_WRONLY, 0)
+	os.Stdout = devnull
 
-func explore() {
-	// 1. BIOS-only synthetic
-	n := 0x4000
-	img := newPatImage(n)
-	es := []fitEnt{fitHeaderEnt(4), {tStartup, physOf(n, 0x1000), 0x10}, {tKM, physOf(n, 0x2000), 0x100}, {tStartup, physOf(n, 0x3000), 0x20}}
-	putFIT(img, 0x3800, es)
-	o, err := tools.CalcImageOffset(img, physOf(n, 0x1000))
-	fmt.Printf("bios-only calc %#x %v\n", o, err)
-	p := tmpFile(img)
-	b := newBG(2, 0xb)
-	pan, msg := gal.Recover(func() { err = b.CreateIBBSegments(0, 5, p) })
-	fmt.Println("segs", pan, msg, err, b.VData.CBNTbpm.SE[0].IBBSegments)
-	d, err := b.GetIBBsDigest(img, "SHA256")
-	fmt.Printf("digest %x %v\n", d, err)
-
-	// 2. IFD image
-	n = 0x8000
-	img = newPatImage(n)
-	putIFD(img, 1, 7)
-	es = []fitEnt{fitHeaderEnt(3), {tStartup, physOf(n, 0x2000), 0x10}, {tBPM, physOf(n, 0x3000), 0x80}}
-	putFIT(img, 0x7800, es)
-	o, err = tools.CalcImageOffset(img, physOf(n, 0x2000))
-	fmt.Printf("ifd calc %#x %v\n", o, err)
-	off, size, err := tools.GetRegion(img, 0)
-	fmt.Println("region", off, size, err)
-	p = tmpFile(img)
-	b = newBG(1, 0xb)
-	pan, msg = gal.Recover(func() { err = b.CreateIBBSegments(0, 0, p) })
-	fmt.Println("segs", pan, msg, err, b.VData.BGbpm.SE[0].IBBSegments)
-	err = b.CreateIBBDigest(p)
-	fmt.Printf("create digest %v %x\n", err, b.VData.BGbpm.SE[0].Digest.HashBuffer)
-	ok, err := b.IBBsMatchBPMDigest(img)
-	fmt.Println("match", ok, err)
-
-	// 3. coreboot image
-	n = 0x8000
-	img = newPatImage(n)
-	putFMAP(img, 0x100, []fmapArea{{"FMAP", 0x100, 0x200}, {"COREBOOT", 0x1000, 0x7000}})
-	f1 := putCBFSFile(img, 0x1000, 0x0, "fallback/romstage", 0x11, 0x100, 24)
-	f2 := putCBFSFile(img, 0x1000, 0x200, "fspt.bin", 0x50, 0x180, 16)
-	f3 := putCBFSFile(img, 0x1000, 0x6000, "bootblock", 0x01, 0xf00, 16)
-	fmt.Println(f1, f2, f3)
-	es = []fitEnt{fitHeaderEnt(2), {tStartup, physOf(n, 0x2000), 0x10}}
-	putFIT(img, 0x7e00, es)
-	o, err = tools.CalcImageOffset(img, physOf(n, 0x2000))
-	fmt.Printf("cb calc %#x %v\n", o, err)
-	p = tmpFile(img)
-	fh, _ := os.Open(p)
-	ci, err := cbfs.NewImage(fh)
-	fmt.Println("cbfs", err)
-	if ci != nil {
-		for _, s := range ci.Segs {
-			fmt.Printf("  %q rec=%#x sub=%#x size=%#x\n", s.GetFile().Name, s.GetFile().RecordStart, s.GetFile().SubHeaderOffset, s.GetFile().Size)
+	nImg := ctx.Scale(150, 1200)
+	for i := 0; i < nImg; i++ {
+		im := genAny()
+		caseOffset(im)
+		caseSegments(im)
+		if rng.Intn(2) == 0 {
+			casePipeline(im)
+		}
+		caseDigestAndMatch(im)
+		if rng.Intn(3) == 0 {
+			caseDigestAndMatch(im)
+		}
+		caseStitch(im)
+		if rng.Intn(2) == 0 {
+			caseStitch(im)
 		}
 	}
-	b = newBG(2, 0xb, 0xc, 0x12)
-	pan, msg = gal.Recover(func() { err = b.CreateIBBSegments(0, 2, p) })
-	fmt.Println("segs", pan, msg, err, b.VData.CBNTbpm.SE[0].IBBSegments)
-	err = b.CreateIBBDigest(p)
-	fmt.Println("create digest (SM3 in list)", err)
-	d, err = b.GetIBBsDigest(img, "SM3")
-	fmt.Printf("sm3 direct %x %v\n", d, err)
-	b = newBG(2, 0xb, 0xc)
-	b.CreateIBBSegments(0, 2, p)
-	err = b.CreateIBBDigest(p)
-	fmt.Println("create digest", err)
-	pan, msg = gal.Recover(func() { ok, err = b.IBBsMatchBPMDigest(img) })
-	fmt.Println("match", pan, msg, ok, err)
-
-	// 4. 256 startup entries
-	n = 0x4000
-	img = newPatImage(n)
-	es = []fitEnt{fitHeaderEnt(257)}
-	for i := 0; i < 256; i++ {
-		es = append(es, fitEnt{tStartup, physOf(n, 16*i), 1})
+	// malformed stream: no usable FIT
+	for i := 0; i < ctx.Scale(12, 60); i++ {
+		im := genBrokenFit()
+		caseSegments(im)
+		caseStitch(im)
 	}
-	putFIT(img, 0x2000, es)
-	p = tmpFile(img)
-	b = newBG(2, 0xb)
-	pan, msg = gal.Recover(func() { err = b.CreateIBBSegments(0, 0, p) })
-	fmt.Println("256 segs", pan, msg, err, len(b.VData.CBNTbpm.SE[0].IBBSegments))
-	ents, err := fit.GetEntries(img)
-	fmt.Println(len(ents), err)
-
-	// 5. stitch on BIOS-only
-	n = 0x4000
-	img = newPatImage(n)
-	es = []fitEnt{fitHeaderEnt(4), {tKM, physOf(n, 0x1000), 0x100}, {tBPM, physOf(n, 0x0), 0x80}, {tSACM, physOf(n, 0x2800), 0}}
-	copy(img[0x2800:], acmBlob(0x100, 0x40, 3))
-	putFIT(img, 0x3800, es)
-	p = tmpFile(img)
-	km := []byte("KMKMKMKMKM")
-	bpm := []byte("BPMBPMBPM")
-	err = bootguard.StitchFITEntries(p, acmBlob(0x100, 0x40, 9), bpm, km)
-	after, _ := os.ReadFile(p)
-	fmt.Println("stitch", err, len(after))
-	for i := 0; i < len(after); i++ {
-		if i >= len(img) || after[i] != img[i] {
-			j := i
-			for j < len(after) && (j >= len(img) || after[j] != img[j]) {
-				j++
-			}
-			fmt.Printf("  diff [%#x,%#x)\n", i, j)
-			i = j
+	// many startup modules, including the 8-bit counter boundary
+	for _, k := range []int{40, 200, 255, 256, 257, 300} {
+		n := 0x4000
+		im := &image{Name: fmt.Sprintf("startup-x%d", k), Bytes: newPatImage(n), RegionEnd: n, RegionBeg: 0x1000, FitOK: true}
+		putIFD(im.Bytes, 1, 3)
+		im.Lay = layout{Kind: "ifd", Off: 0x1000, Size: 0x3000}
+		body := make([]fitEnt, 0, k+2)
+		for i := 0; i < k; i++ {
+			body = append(body, fitEnt{tStartup, im.phys(0x1000 + 16*i), uint32(1 + i%3)})
 		}
+		body = append(body, fitEnt{tKM, im.phys(0x3000), 0x40}, fitEnt{tSkip, 0, 0})
+		rng.Shuffle(len(body), func(i, j int) { body[i], body[j] = body[j], body[i] })
+		im.Fit = append([]fitEnt{fitHeaderEnt(len(body) + 1)}, body...)
+		putFIT(im.Bytes, 0x2000, im.Fit)
+		caseSegments(im)
 	}
-}
-
-func main() {
-	explore()
+	probes()
+	os.Stdout = stdout
+	ctx.Finish("one case per call of the real code (CalcImageOffset, CreateIBBSegments, GetIBBsDigest, CreateIBBDigest, IBBsMatchBPMDigest, StitchFITEntries) on generated images; the model must reproduce outcome class, segment list, the fingerprint of the hashed bytes (found by hashing candidates with Go crypto) and the exact file contents after stitching")
 }
